@@ -66,7 +66,7 @@ NOT_APPLICABLE = {
 
 # properties whose check is planned in DESIGN.md but not built yet in this revision
 PENDING = {k: "check not built yet in this revision of /verif (planned, DESIGN.md §4); not claimed until it exists"
-           for k in ["C03", "C04", "C05", "C07", "C08", "C10", "C11", "C12", "C14", "C15", "C16",
+           for k in ["C03", "C04", "C05", "C07", "C08", "C10", "C11", "C12", "C14", "C16",
                      "C17", "C18", "C19", "C20"]}
 
 
@@ -139,4 +139,50 @@ _add(Prop(
           "equilibrium, -1.0 -> MIN, and inverts int->float wherever that was exact. f32->f64 is shown exact by "
           "canonical (sign, odd mantissa, exponent) equality; f64->f32 is shown to be the nearest f32, ties to even, "
           "overflowing only beyond the rounding threshold.",
+))
+
+
+# the operator's own overflow panic: `.expect("arithmetic operation overflowed")` (Kani shows expect_failed's
+# message as a placeholder) and rustc's overflow assertion on the representation type inside types.rs
+_C15_PANICS = [r"std::option::expect_failed\.assertion",
+               r"attempt to (add|subtract|multiply|negate) with overflow \| .*dasp_sample/src/types\.rs"]
+# Kani forces -C overflow-checks=on even when the profile turns them off, so in the `release` run rustc's
+# overflow assertion on the REPRESENTATION type (i16/i32/i64) still cuts those paths: the release claim for `*`
+# is restricted to operand pairs whose product fits the representation type (stated in bounds).
+_C15_REL = [r"attempt to multiply with overflow \| .*dasp_sample/src/types\.rs"]
+_add(Prop(
+    "C15", "c15_types", "c15",
+    functions=["dasp_sample::types::{I11,U11,I20,U20,I24,U24,I48,U48}::{new, inner, from(Rep), wrap_overflow, "
+               "wrap_overflow_once, add, sub, mul, cmp, partial_cmp, eq}", "Neg for I11, I24, I48",
+               "all 35 widening From impls of types.rs"],
+    bounds="all in-range operands for new/order/add/sub/neg/widening; From<Rep>: full i16 range (11-bit types), full "
+           "i32 range (24-bit), |v| < 2^25 (20-bit; loop unwound 34) and |v| < 2^53 (48-bit; unwound 34); mul: first "
+           "factor any in-range value, second factor full range for 11/24-bit types, |b| <= 2^6/2^5 (20-bit) and "
+           "2^5/2^4 (48-bit) in the quick tier, 2^20 resp. 2^10/2^9 in the thorough tier; BOTH builds: dev profile "
+           "(debug assertions on) and the same code with debug assertions off; in the latter Kani still forces rustc's "
+           "overflow assertions on, so release-build `*` is decided only for operand pairs whose product fits the "
+           "representation type (i16/i32/i64) - add, sub, neg never overflow the representation and are complete",
+    outside="From<i32> for the 20-bit types beyond |v| >= 2^25 and From<i64> for the 48-bit types beyond 2^53 (the wrap "
+            "loop needs up to 2049 / 32769 iterations: full i64 did not finish in 600 s); second mul factors beyond the "
+            "stated bounds; Div, Rem, Shl, Shr, Not, Bit* (not in the statement); Neg for U11 (unsigned)",
+    assumptions=["operands are built with the checked constructor new()",
+                 "debug build: failed checks matching the allow-list (the operator's own overflow panic) are the "
+                 "behaviour the property demands; every other check must hold",
+                 "release build: Kani's CBMC-level signed-overflow checks are disabled (--no-overflow-checks) because "
+                 "wrapping of the representation type is defined behaviour in that configuration"],
+    runs=[("harness", "debug", ["c15"]), ("harness", "release", ["c15"])],
+    rules=[
+        {"match": r"_wide::", "tier": "thorough", "profiles": ["debug", "release"], "allow_debug": _C15_PANICS,
+         "allow_release": _C15_REL, "timeout": 1500},
+        {"match": r"::mul$", "profiles": ["debug", "release"], "allow_debug": _C15_PANICS, "allow_release": _C15_REL},
+        {"match": r"::(add|sub|neg)$", "profiles": ["debug", "release"], "allow_debug": _C15_PANICS},
+        {"match": r"::from_rep$", "profiles": ["debug", "release"]},
+        {"match": r".", "profiles": ["debug", "release"]},
+    ],
+    design_ref="DESIGN.md §4 C15",
+    claim="For each of the 8 custom-width types and for every in-range operand (pair) the solver shows: new() succeeds "
+          "exactly in range; From<Rep> lands in range and is congruent mod 2^bits; the widening Froms preserve the "
+          "value; Ord/Eq coincide with numeric order; +, -, *, unary - never return a value outside [MIN, MAX] in "
+          "either build, equal the exact result whenever they return in the debug-assertion build (so every "
+          "overflowing pair panics) and equal the exact result wrapped mod 2^bits in the release build.",
 ))
